@@ -603,7 +603,7 @@ fn roundtrips(l: &mut Local, bits: usize, v: &BigUint) {
 
 fn c16_values(r: &Runner, bits: usize) -> (Vec<Limbs>, String) {
     // the mode-boundary universe P(B) is part of every candidate of `pick`
-    let (mut v, d) = pick(bits, if r.is_thorough() { 20_000 } else { 8_000 }, &salt(r.seed));
+    let (mut v, d) = pick(bits, if r.is_thorough() { 100_000 } else { 8_000 }, &salt(r.seed));
     // decimal mode boundaries (NUMERIC digits are base 10000, texts are decimal): 10^k, c * 10000^k and neighbours
     let m = pow2(bits);
     let mut p = BigUint::from(1u32);
